@@ -119,7 +119,8 @@ def ufunc_oracle(ctx, args, kwargs, result, exc, pre):
     q = (hi - lo) / dw
     okn = steps == int(np.ceil(q)) or (abs(q - round(q)) < 1e-9 * max(1, q) and abs(steps - round(q)) <= 1)
     uniform = len(g) < 3 or float(np.max(np.abs(np.diff(g) - (hi - lo) / max(steps, 1)))) <= 1e-9 * (hi - lo)
-    ctx.check(len(g) >= 2 and abs(g[0] - lo) <= 1e-12 * hi and abs(g[-1] - hi) <= 1e-12 * hi and uniform and okn,
+    # the ends of the union are samples of the operands themselves (same unit): the grid starts and ends on them exactly
+    ctx.check(len(g) >= 2 and g[0] == lo and g[-1] == hi and uniform and okn,
               'grid', 'ufunc|grid',
               'result grid is not the uniform grid spanning the union of the ranges at the finer (or requested) sampling',
               dict(desc, lo=lo, hi=hi, dw=dw, steps=steps))
@@ -133,18 +134,28 @@ def ufunc_oracle(ctx, args, kwargs, result, exc, pre):
         ref = uf(va, vb)
         # tie tolerance at operand end points: alternative with the other side's choice
         def near(x, e):
-            return np.abs(x - e) <= 1e-9 * abs(e)
+            # a grid point that IS the end sample (bit for bit) belongs to the operand's range; only near misses are ties
+            return (np.abs(x - e) <= 1e-9 * abs(e)) & (x != e)
         tie = near(g, sw[0]) | near(g, sw[-1]) | near(g, ow[0]) | near(g, ow[-1])
         got = np.asarray(result.value, float)
         fin = np.isfinite(ref) & np.isfinite(got)
         scale = max(float(np.max(np.abs(ref[fin]))) if fin.any() else 1.0, 1e-300)
+        ma_, mb_ = float(np.max(np.abs(np.r_[sv, fill]))), float(np.max(np.abs(np.r_[ov, fill])))
+        if uf is np.multiply:       # results that cancelled to rounding are measured against the operands
+            scale = max(scale, ma_ * mb_)
+        elif uf in (np.add, np.subtract):
+            scale = max(scale, ma_ + mb_)
         bad = ~np.isclose(got, ref, rtol=1e-9, atol=1e-11 * scale, equal_nan=True)
     bad &= ~tie
     if uf is np.divide:     # a denominator that is zero to rounding: inf vs 1e16 are both 'the quotient'
         bad &= np.abs(vb) > 1e-9 * max(float(np.max(np.abs(ov))), 1e-300)
     if uf is np.power:      # 0**0 = 1 but 0**1e-17 = 0: base and exponent both zero to rounding is ill-conditioned
+        # ... and 0**negative = inf but (1e-17)**negative is merely huge
         bad &= ~((np.abs(va) <= 1e-9 * max(float(np.max(np.abs(sv))), 1e-300)) &
-                 (np.abs(vb) <= 1e-9 * max(float(np.max(np.abs(ov))), 1e-300)))
+                 (vb <= 1e-9 * max(float(np.max(np.abs(ov))), 1e-300)))
+        # a negative base has a real power only for exactly integer exponents: an interpolated exponent that is an integer
+        # to rounding gives a number or NaN depending on the last bit (discontinuous everywhere, not evidence)
+        bad &= ~(va < 0)
     if bad.any():
         k = int(np.argmax(bad))
         ctx.check(False, 'value=op(interp)', f'ufunc|value|{uf.__name__}',
@@ -335,14 +346,27 @@ def workload(ctx, lentil):
                     ib_ = sm.interp_linear(gnm, wb, vb, fill)
                     if opn == 'divide':   # denominators that vanish to rounding are ill-conditioned, not evidence
                         tie = tie | (np.abs(ib_) <= 1e-9 * float(np.max(np.abs(vb))))
-                    if opn == 'power':    # 0**0 versus 0**1e-17
-                        tie = tie | ((np.abs(ia_) <= 1e-9 * float(np.max(np.abs(va)))) & (np.abs(ib_) <= 1e-9 * float(np.max(np.abs(vb)))))
+                    if opn == 'power':    # 0**0 versus 0**1e-17, 0**negative versus (1e-17)**negative
+                        tie = tie | ((np.abs(ia_) <= 1e-9 * float(np.max(np.abs(va)))) & (ib_ <= 1e-9 * float(np.max(np.abs(vb)))))
+                        tie = tie | (ia_ < 0)      # negative base: real only for exactly integer exponents (see the online oracle)
                     fin_ = np.isfinite(v1) & np.isfinite(v2)
                     sc_ = max(float(np.max(np.abs(v1[fin_]))) if fin_.any() else 1.0, 1e-300)
-                    same = bool(np.all(np.isclose(v1, v2, rtol=1e-8, atol=1e-11 * sc_, equal_nan=True) | tie))
+                    # an operand that interpolates to zero-up-to-rounding makes a product / sum that is zero up to rounding:
+                    # the yardstick is the size of the operands, not of a result that cancelled
+                    ma_, mb_ = float(np.max(np.abs(np.r_[va, fill]))), float(np.max(np.abs(np.r_[vb, fill])))
+                    if opn == 'multiply':
+                        sc_ = max(sc_, ma_ * mb_)
+                    elif opn in ('add', 'subtract'):
+                        sc_ = max(sc_, ma_ + mb_)
+                    okv = np.isclose(v1, v2, rtol=1e-8, atol=1e-11 * sc_, equal_nan=True) | tie
+                    same = bool(np.all(okv))
+                    if not same:
+                        kbad = int(np.argmin(okv))
+                        where = {'at_nm': float(gnm[kbad]), 'index': kbad, 'v1': float(v1[kbad]), 'v2': float(v2[kbad]),
+                                 'a': float(ia_[kbad]), 'b': float(ib_[kbad]), 'ends_nm': [float(wa[0]), float(wa[-1]), float(wb[0]), float(wb[-1])]}
                 ctx.check(same, 'unit-agnostic', f'unit|{label}',
                           'the outcome depends on the wavelength unit in which the operands are expressed',
-                          dict(desc, units=[x, y], n=[len(gnm), len(g2)]))
+                          dict(desc, units=[x, y], n=[len(gnm), len(g2)], where=where if not same and len(g2) == len(gnm) else None))
                 for nm_, obj, (w0, v0) in (('left', A2, (wa, va)), ('right', B2, (wb, vb))):
                     w2, v2_ = phys(obj)
                     ctx.check(w2.shape == w0.shape and np.allclose(w2, w0, rtol=1e-12) and np.allclose(v2_, v0, rtol=1e-12),
